@@ -20,7 +20,7 @@ from ..gen import c11_gen as GEN
 
 PID = "C11"
 COQ_HEADER = ("From Coq Require Import List NArith ZArith.\nImport ListNotations.\n"
-              "From SK Require Import lib.Tok lib.LGraph model.C11_Model model.C11_State.\nLocal Open Scope N_scope.\n")
+              "From SK Require Import lib.Tok lib.LGraph model.C11_Model model.C11_State model.C11_Partial.\nLocal Open Scope N_scope.\n")
 SHARD = 250
 IMPL_TIMEOUT = 2400
 COQ_TIMEOUT = 1500
@@ -41,7 +41,7 @@ EXPLANATION = ("Exhaustive sub-space (both tiers): every labelled graph up to is
                "Everything else is seeded random / "
                "corpus sampling.  Theorems (coq/props/C11.v, all closed under the global context): C11_vocabulary, C11_aut_count, C11_aut_group, "
                "C11_vf2_contract, C11_vf2_contract_items, C11_orbits_exact, C11_orbits_partition, C11_components, C11_anchors, C11_object_state, C11_wl_never_splits, C11_wfb_sound, "
-               "C11_dedup_sublist, C11_dedup_first_of_class, C11_partial_prune, C11_prune_complete, C11_rep_ok, C11_prune_complete_aut, C11_prune_same_results.")
+               "C11_dedup_sublist, C11_dedup_first_of_class, C11_partial_prune, C11_partial_prune_hosts, C11_prune_complete, C11_rep_ok, C11_prune_complete_aut, C11_prune_same_results.")
 TRUSTED_BASE = [
     "Coq 8.16.1 kernel + vm_compute (no native_compute)",
     "hand-written model coq/model/C11_Model.v tied to synkit/Graph/Matcher/{automorphism,auto_est,dedup_matches}.py and the pruning call of "
@@ -214,6 +214,10 @@ def _dedup_cfgs(P, H):
         lambda ms: old(ms, host_orbits=[]),
         lambda ms: _pm(P, H, 10)._prune_automorphic_mappings(ms),
         lambda ms: _pm(P, H, 1)._prune_automorphic_mappings(ms),
+        # overlapping host orbits (degenerate input): a node covered twice gets the index of the LAST orbit containing it
+        lambda ms: old(ms, host_orbits=ho + [frozenset(H.nodes())]),
+        lambda ms: old(ms, host_orbits=[frozenset(H.nodes())] + ho),
+        lambda ms: _pm(P, [H, H.copy()], 10)._prune_automorphic_mappings(ms),      # two hosts: no pruning
     ]
 
 
@@ -519,7 +523,7 @@ def impl(case):
     if k == "dedup":
         res = _impl_dedup(case)
         raw, kept = _pm_lists(case)
-        return [[[res[:N_OLD], True, True]] + res[N_OLD:], [0, _indices(raw, kept)]]
+        return [[[res[:N_OLD], True, True]] + res[N_OLD:N_OLD + 8], [0, _indices(raw, kept)]] + res[N_OLD + 8:]
     if k == "hist":
         return _impl_hist(case)
     if k == "prune":
@@ -586,8 +590,12 @@ def coq_case(case):
         worker_init()
         raw, _ = _pm_lists(case)
         raw = [[[p, h] for p, h in m.items()] for m in raw]
-        return ("(let h := %s in L [run_dedup_x %s h %s; t_idx (partial_prune (@snd nat mapping) n_exact h 10 (indexed %s))])"
-                % (_coq_graph(case["h"]), _coq_graph(case["p"]), _coq_maps(case["ms"]), _coq_maps(raw)))
+        return ("(let h := %s in let ms := %s in let ho := a_orbits (analyze n_exact e_order h) in "
+                "L [run_dedup_x %s h ms; t_idx (partial_prune (@snd nat mapping) n_exact h 10 (indexed %s)); "
+                "t_idx (dedup_anchor (@snd nat mapping) (indexed ms) None [] (Some (ho ++ [node_ids h]))); "
+                "t_idx (dedup_anchor (@snd nat mapping) (indexed ms) None [] (Some (node_ids h :: ho))); "
+                "t_idx (partial_prune_hosts (@snd nat mapping) n_exact [h; h] 10 (indexed ms))])"
+                % (_coq_graph(case["h"]), _coq_maps(case["ms"]), _coq_graph(case["p"]), _coq_maps(raw)))
     if k == "prune":
         worker_init()
         r = _reactor(case, "front")
@@ -976,7 +984,7 @@ def neighbours(case, rng):
 
 def _dedup_results(obs):
     """flat list of the per-configuration results of a dedup observable"""
-    return list(obs[0][0][0]) + list(obs[0][1:]) + [obs[1]]
+    return list(obs[0][0][0]) + list(obs[0][1:]) + list(obs[2:]) + [obs[1]]
 
 
 def nontrivial(case, obs):
